@@ -870,7 +870,7 @@ namespace jsonpointer {
     {
         if (location.empty())
         {
-            root = std::forward<T>(value);
+            ec = jsonpointer_errc::key_already_exists; // the whole document is never absent
             return;
         }
         Json* current = std::addressof(root);
